@@ -460,7 +460,11 @@ func (c *RCase) Run() {
 		if o.Kind == "reset" && (c.Pool || c.CheckShape) {
 			if c.Pool {
 				dyntpl.ReleaseCtx(ctx)
+				atRelease := evStr()
 				ctx = dyntpl.AcquireCtx()
+				if a := evStr(); a != atRelease {
+					c.ShapeDiffs = append(c.ShapeDiffs, "pooled objects / deferred functions were settled when a context was ACQUIRED, not when the context was released: log at release "+atRelease+", after acquire "+a)
+				}
 			} else {
 				ctx.Reset()
 			}
